@@ -92,10 +92,18 @@ def gen_pipeline(rng, tables, nsteps, tags=None, exclude=(), stats=None, sc=None
                 # An unnamed iterable must pick a free name itself (fixed defect c45c7a1): that candidate is kept, for the check to judge.
                 raise ValueError('duplicate resource names')
             added += 1
-        except Exception:  # noqa  -> ill-typed candidate, discard
+        except Exception as e:  # noqa  -> ill-typed candidate, discard
             sc['steps'].pop()
             stats['ill-typed-step'] = stats.get('ill-typed-step', 0) + 1
             stats['ill:' + spec['step']] = stats.get('ill:' + spec['step'], 0) + 1
+            if spec['step'] == 'user' and len(stats.setdefault('ill-user-detail', [])) < 3:
+                # a user callable of the right arity is well-typed by construction (it only fills its own marker field):
+                # the checks report its rejection instead of silently generating around it
+                c = getattr(e, 'cause', None) or e
+                stats['ill-user-detail'].append([spec.get('param'), spec.get('kind'), type(c).__name__, str(c)[:160]])
+                if 'ill-user-candidate' not in stats:
+                    import copy
+                    stats['ill-user-candidate'] = {'prefix': copy.deepcopy(sc['steps']), 'spec': copy.deepcopy(spec)}
     sc['_g'] = g.n
     return sc
 
